@@ -43,3 +43,20 @@ package standard
 //@   top-ensures err == nil ==> idleSeen || ctxErr
 //@   loop 0:
 //@     invariant lnDone && !ctxErr
+
+// ---- C02 (the buffered reader under the parsers): a peek that spans several buffer nodes copies, from each node,
+// only bytes that were written into it - the window [off, malloc) - never the unwritten tail of a node that is not
+// full, and fills the destination front to back. (nodeOK: the node's offsets are ordered and within machine range.)
+//@ macro nodeOK(n) = 0 <= n.off && n.off <= n.malloc && n.malloc < 4611686018427387904
+//@ func linkBufferNode.Len(b) r
+//@   props C02
+//@   abstract-too
+//@   recvnonnil
+//@   top-ensures nodeOK(b) ==> r == b.malloc - b.off
+//@ func Conn.peekBuffer(c, i, buf)
+//@   props C02
+//@   abstract
+//@   noinline
+//@   panics
+//@   assert before copy: nodeOK(node) ==> sameArray(arg1, node.buf) && off(arg1) == off(node.buf) + node.off && len(arg1) <= node.malloc - node.off
+//@   assert before copy: sameArray(arg0, buf) && off(arg0) == off(buf) + pIdx
